@@ -401,6 +401,10 @@ void orc_x86_emit_rep_movs (OrcCompiler *compiler, int size)
 void
 x86_add_fixup (OrcCompiler *compiler, unsigned char *ptr, int label, int type)
 {
+  if (compiler->n_fixups >= ORC_N_FIXUPS) {
+    orc_compiler_error (compiler, "too many fixups");
+    return;
+  }
   compiler->fixups[compiler->n_fixups].ptr = ptr;
   compiler->fixups[compiler->n_fixups].label = label;
   compiler->fixups[compiler->n_fixups].type = type;
